@@ -570,7 +570,7 @@ def main(chk: core.Check) -> int:
     chk.rule = RULE
     c07_file_gen.regenerate(chk)  # T-file: Generated/JournalFileMethods.lean from journal/_file.py, before the theorems are re-checked against it
     if not getattr(chk, "no_prove", False):
-        chk.prove(["OptunaVerif.Props.C07", "OptunaVerif.Props.C07Lock", c07_file_gen.MODULE])
+        chk.prove(["OptunaVerif.Props.C07", "OptunaVerif.Props.C07Lock", c07_file_gen.MODULE, "OptunaVerif.Props.C05C07Bridge", "OptunaVerif.Props.C05C07BridgeGen"])
         c07_file_gen.explain_proof_failure(chk)
     quick = chk.tier == "quick"
     try:
